@@ -12,9 +12,13 @@
 // root directory replaced by <ROOT>) and compared call by call.  Data races are reported by the race
 // detector on stderr; batch boundaries are marked on stderr so that a report can be attributed.
 //
-// Paths handed to the library are absolute: the working directory is process-global and must not
-// be changed by a concurrent test.  Inspections are not exercised: RunInspections writes
-// <name>.link into the process working directory, which two calls share by construction.
+// Paths handed to the library are absolute, except in the mix "cwd-relative": the harness fixes its working
+// directory once (fixCwd: <work>/cwd, never changed by the harness afterwards) and some goroutines call
+// RecordArtifacts / InTotoRun with paths RELATIVE to it (read-only trees below <cwd>/known/) while others run
+// InTotoVerifyWithDirectory on run directories of their own, with layouts whose 1-2 inspections take 0.3-0.5 s.
+// A library call that changes the process working directory (or anything else the relative calls depend on)
+// shows up as a differing result, and the working directory is checked after every concurrent phase.
+// Inspection names are unique per goroutine: RunInspections writes <name>.link into the working directory.
 package main
 
 import (
@@ -35,6 +39,7 @@ import (
 	"strconv"
 	"strings"
 	"sync"
+	"time"
 
 	intoto "github.com/in-toto/in-toto-golang/in_toto"
 	"verif/harness/lib"
@@ -89,8 +94,27 @@ var mixes = map[string][]string{
 	"run":             {"run-command", "in-toto-run", "in-toto-run-dsse", "record"},
 	"crypto-metadata": {"sign-verify", "dsse-sign-verify", "dump-load", "dsse-dump-load", "load-key", "verify-artifacts", "substitute"},
 	"verify":          {"in-toto-verify", "verify-artifacts", "substitute", "sign-verify"},
+	cwdMix:            {"verify-with-dir", "record-relative", "in-toto-run-relative"},
 	"mixed": {"record", "record-nofollow", "record-gitignore", "run-command", "in-toto-run", "in-toto-run-dsse", "sign-verify",
 		"dsse-sign-verify", "dump-load", "dsse-dump-load", "load-key", "verify-artifacts", "substitute", "in-toto-verify"},
+}
+
+// explicit only (never part of the default list): its sequential phase takes seconds
+const cwdMix = "cwd-relative"
+
+var fixedCwd string // the working directory of the harness process, set once by fixCwd
+
+func fixCwd(work string) {
+	fixedCwd = filepath.Join(work, "cwd")
+	must(os.MkdirAll(fixedCwd, 0o755))
+	if p, err := filepath.EvalSymlinks(fixedCwd); err == nil {
+		fixedCwd = p
+	}
+	must(os.Chdir(fixedCwd))
+}
+
+func isRelativeTask(t task) bool {
+	return len(t.Ops) > 0 && strings.HasSuffix(t.Ops[0].Kind, "-relative")
 }
 
 var treeKinds = []string{"plain", "plain", "file-links", "file-links", "dir-links", "dir-links", "dir-links",
@@ -100,9 +124,34 @@ func genTasks(b batch) []task {
 	r := lib.NewRng(b.Seed)
 	kinds := mixes[b.Mix]
 	ts := make([]task, b.Goroutines)
+	nVerify := b.Goroutines / 2
+	if nVerify > 4 {
+		nVerify = 4
+	}
+	if nVerify < 1 {
+		nVerify = 1
+	}
 	for k := range ts {
 		tr := r.Fork()
 		t := task{K: k}
+		if b.Mix == cwdMix {
+			t.TreeKind = []string{"plain", "file-links", "dir-links"}[tr.Intn(3)]
+			seed := make([]byte, 32)
+			for i := range seed {
+				seed[i] = byte(tr.Intn(256))
+			}
+			t.KeySeed = hex.EncodeToString(seed)
+			if k < nVerify {
+				t.Ops = []op{{Kind: "verify-with-dir", A: tr.Intn(1000), B: tr.Intn(1000)}}
+			} else {
+				n := tr.Range(5, 8)
+				for i := 0; i < n; i++ {
+					t.Ops = append(t.Ops, op{Kind: []string{"record-relative", "record-relative", "in-toto-run-relative"}[tr.Intn(3)], A: tr.Intn(1000), B: tr.Intn(1000)})
+				}
+			}
+			ts[k] = t
+			continue
+		}
 		switch b.Mix {
 		case "record-symlinks":
 			t.TreeKind = []string{"file-links", "dir-links", "dir-links", "nested-dir-links", "nested-dir-links", "cycle"}[tr.Intn(6)]
@@ -149,6 +198,8 @@ func buildTree(root string, t task) {
 	must(os.MkdirAll(filepath.Join(root, "out"), 0o755))
 	must(os.MkdirAll(filepath.Join(root, "links"), 0o755))
 	must(os.MkdirAll(filepath.Join(root, "meta"), 0o755))
+	writeFile(filepath.Join(root, "rundir", "data", "app.c"), "int main(void){return 42;} /* unpacked "+tag+" */\n")
+	writeFile(filepath.Join(root, "rundir", "src", "main.c"), "/* final product of "+tag+" */\n")
 	writeFile(filepath.Join(root, "ext", "lib", "a.h"), "#define A \""+tag+"\"\n")
 	writeFile(filepath.Join(root, "ext", "lib", "deep", "b.h"), "#define B 2\n")
 	writeFile(filepath.Join(root, "ext", "other", "c.h"), "#define C 3\n")
@@ -352,6 +403,44 @@ func runOp(t task, o op, i int, root string, ks keys) string {
 			params["bad name"] = "x"
 		}
 		return show(intoto.SubstituteParameters(sampleLayout(t, o, ks), params))
+	case "record-relative":
+		// path relative to the (fixed) working directory of the process
+		rel, err := filepath.Rel(fixedCwd, root)
+		must(err)
+		algs := [][]string{{"sha256"}, {"sha256", "sha512"}}[o.A%2]
+		paths := [][]string{{filepath.Join(rel, "src")}, {filepath.Join(rel, "src"), filepath.Join(rel, "data")}}[o.B%2]
+		return strings.ReplaceAll(show(intoto.RecordArtifacts(paths, algs, nil, []string{rel + "/"}, true, o.A%3 != 0)), rel, "<REL>")
+	case "in-toto-run-relative":
+		rel, err := filepath.Rel(fixedCwd, root)
+		must(err)
+		script := fmt.Sprintf("cat %s/src/main.c; echo rel-%d", rel, o.A) // runDir "": the command inherits the working directory
+		return strings.ReplaceAll(showMeta(intoto.InTotoRun(fmt.Sprintf("rel-%d", i), "", []string{filepath.Join(rel, "src")}, []string{filepath.Join(rel, "src")},
+			[]string{"sh", "-c", script}, ks.priv, []string{"sha256"}, nil, []string{rel + "/"}, true, true, false)), rel, "<REL>")
+	case "verify-with-dir":
+		// a one-step supply chain inside the task's tree, a layout with 1-2 slow inspections, verified with
+		// InTotoVerifyWithDirectory on the task's own run directory; link directory absolute
+		script := fmt.Sprintf("echo w-%d-%d > out/verify-%d.txt", t.K, o.A, i)
+		linkDir := filepath.Join(root, "links")
+		linkMb, err := intoto.InTotoRun("build", root, []string{filepath.Join(root, "src")}, []string{filepath.Join(root, "out")},
+			[]string{"sh", "-c", script}, ks.priv, []string{"sha256"}, nil, strip, true, false, false)
+		if err != nil {
+			return "ERR run: " + errClass(err)
+		}
+		if err := linkMb.Dump(filepath.Join(linkDir, fmt.Sprintf(intoto.LinkNameFormat, "build", ks.priv.KeyID))); err != nil {
+			return "ERR dump: " + errClass(err)
+		}
+		layout := sampleLayout(t, o, ks)
+		for j := 0; j <= o.B%2; j++ {
+			layout.Inspect = append(layout.Inspect, intoto.Inspection{Type: "inspection",
+				Run: []string{"sh", "-c", fmt.Sprintf("sleep 0.%d", 3+(o.A+j)%3)},
+				SupplyChainItem: intoto.SupplyChainItem{Name: fmt.Sprintf("insp-%s-%d", t.KeySeed[:10], j),
+					ExpectedMaterials: [][]string{{"ALLOW", "*"}}, ExpectedProducts: [][]string{{"ALLOW", "*"}}}})
+		}
+		layoutMb := &intoto.Metablock{Signed: layout}
+		must(layoutMb.Sign(ks.ownPriv))
+		params := map[string]string{"CMD": script, "PAT": "*"}
+		return showMeta(intoto.InTotoVerifyWithDirectory(layoutMb, map[string]intoto.Key{ks.ownPub.KeyID: ks.ownPub}, linkDir,
+			filepath.Join(root, "rundir"), "", params, nil, true))
 	case "in-toto-verify":
 		// a one-step supply chain entirely inside the task's tree: run the step, dump its link, verify
 		script := fmt.Sprintf("echo v-%d-%d > out/verify-%d.txt", t.K, o.A, i)
@@ -392,6 +481,9 @@ func runTask(t task, root string, yield bool) (out []string) {
 		if yield {
 			runtime.Gosched()
 		}
+		if isRelativeTask(t) {
+			time.Sleep(80 * time.Millisecond) // spread the relative calls over the time the inspections take
+		}
 	}
 	return out
 }
@@ -404,10 +496,20 @@ func runBatch(work string, b batch) batchResult {
 	tasks := genTasks(b)
 	bdir := filepath.Join(work, fmt.Sprintf("b%d", b.ID))
 	os.RemoveAll(bdir)
-	root := func(phase string, k int) string { return filepath.Join(bdir, phase, fmt.Sprintf("g%d", k)) }
+	kdir := filepath.Join(fixedCwd, "known", fmt.Sprintf("b%d", b.ID))
+	os.RemoveAll(kdir)
+	root := func(phase string, k int) string {
+		if isRelativeTask(tasks[k]) {
+			// read-only tree below the working directory, the same for both phases
+			return filepath.Join(kdir, fmt.Sprintf("g%d", k))
+		}
+		return filepath.Join(bdir, phase, fmt.Sprintf("g%d", k))
+	}
 	for _, t := range tasks {
 		buildTree(root("seq", t.K), t)
-		buildTree(root("conc", t.K), t)
+		if !isRelativeTask(t) {
+			buildTree(root("conc", t.K), t)
+		}
 		res.Trees[t.TreeKind]++
 	}
 	if b.Procs > 0 {
@@ -429,6 +531,12 @@ func runBatch(work string, b batch) batchResult {
 	}
 	close(start)
 	wg.Wait()
+	// the working directory belongs to the harness: no library call may have moved it
+	var cwdMoved []mismatch
+	if wd, err := os.Getwd(); err != nil || wd != fixedCwd {
+		cwdMoved = append(cwdMoved, mismatch{-1, -1, "process-working-directory", "", "<CWD>", strings.ReplaceAll(wd, bdir, "<BATCH>") + fmt.Sprintf(" (err=%v)", err)})
+		must(os.Chdir(fixedCwd))
+	}
 	// oracle: the same calls one after the other
 	seq := make([][]string, len(tasks))
 	for k, t := range tasks {
@@ -448,10 +556,12 @@ func runBatch(work string, b batch) batchResult {
 			}
 		}
 	}
+	res.Mismatches = append(res.Mismatches, cwdMoved...)
 	if len(res.Mismatches) > 0 {
 		res.Tasks = tasks
 	}
 	os.RemoveAll(bdir)
+	os.RemoveAll(kdir)
 	fmt.Fprintf(os.Stderr, "C16-BATCH end id=%d mismatches=%d\n", b.ID, len(res.Mismatches))
 	return res
 }
@@ -501,11 +611,16 @@ func main() {
 			mixNames = strings.Split(os.Args[8], ",")
 		} else {
 			for m := range mixes {
-				mixNames = append(mixNames, m)
+				if m != cwdMix {
+					mixNames = append(mixNames, m)
+				}
 			}
 			sort.Strings(mixNames)
 		}
 		must(os.MkdirAll(work, 0o755))
+		outp, err := filepath.Abs(outp)
+		must(err)
+		fixCwd(work)
 		f, err := os.Create(outp)
 		must(err)
 		w := bufio.NewWriter(f)
@@ -545,6 +660,7 @@ func main() {
 			times, _ = strconv.Atoi(os.Args[3])
 		}
 		work := absDir(os.Args[2], "replay-work")
+		fixCwd(work)
 		bad := 0
 		for i := 0; i < times; i++ {
 			res := runBatch(work, b)
@@ -569,6 +685,7 @@ func main() {
 		var b batch
 		must(json.Unmarshal(raw, &b))
 		work := absDir(os.Args[2], "show-work")
+		fixCwd(work)
 		for _, t := range genTasks(b) {
 			root := filepath.Join(work, fmt.Sprintf("g%d", t.K))
 			buildTree(root, t)
